@@ -41,7 +41,8 @@ PlanOp make_sentence_op(Rng& rng, const std::string& key, const OpShape& sh)
     if (m)
     {
         int budget = sh.budget <= 0 ? 0 : int(rng.below(uint64_t(sh.budget) + 1));
-        op.toks = gen_sentence(*m, rng, budget, sh.ws_rich, op.skip_ws, op.skip_nl);
+        bool dense = rng.chance(sh.p_dense, 100);
+        op.toks = gen_sentence(*m, rng, budget, sh.ws_rich, op.skip_ws, op.skip_nl, dense);
         if (op.skip_ws && rng.chance(1, 4))
         {
             static const std::vector<std::string> tails = { " ", "\n", "  \n", "\t", "\r\n" };
